@@ -328,7 +328,8 @@ func c16FloorTerms(c *Ctx) {
 				// the time floor is left out only when min-age retention is switched off (seeded change C16-K also leaves it out
 				// while the sampled height is 0 — on a young chain whose block 0 is itself younger than the minimum age, 0 is a
 				// legitimate sample and blocks younger than the minimum age get pruned)
-				if o, m := everyDisjunctHas(p.mustHoldAt(ret.Ret), []string{"minAge == 0"}); !o {
+				pn := term(fn.Params[1])
+				if o, m := everyDisjunctHas(p.mustHoldAt(ret.Ret), []string{"minAge == 0"}, []string{pn, " < "}, []string{pn, " <= "}, []string{pn, " > "}, []string{pn, " >= "}); !o {
 					c.viol("floor-terms", "(*pruner.Pruner).applyTimeFloor: time floor skipped", p.Pos(posOf(ret.Ret, fn)), "the block-count floor is returned without the min-age clause although min-age retention is not switched off on this path ("+clip(m, 160)+"): blocks younger than the configured minimum age can be pruned")
 				}
 				continue
@@ -344,6 +345,13 @@ func c16FloorTerms(c *Ctx) {
 					if has {
 						continue
 					}
+				}
+			}
+			// min written as a comparison: another value is returned only on a path that compared it with the block-count floor
+			{
+				pn, vt := term(fn.Params[1]), term(v)
+				if o, _ := everyDisjunctHas(p.mustHoldAt(ret.Ret), []string{vt + " < " + pn}, []string{vt + " <= " + pn}, []string{"^!", pn + " < " + vt}, []string{"^!", pn + " <= " + vt}, []string{pn + " > " + vt}, []string{pn + " >= " + vt}, []string{"^!", vt + " > " + pn}, []string{"^!", vt + " >= " + pn}); o && vt != "" {
+					continue
 				}
 			}
 			ok = false
@@ -806,7 +814,39 @@ func c16BoundOK(v ssa.Value, want string, depth int) bool {
 		}
 		rets := returnsOf(g)
 		for _, r := range rets {
-			if len(r.Results) != 1 || !c16RetOK(r.Results[0], g, x.Call.Args, want, depth+1) {
+			if len(r.Results) == 1 && c16RetOK(r.Results[0], g, x.Call.Args, want, depth+1) {
+				continue
+			}
+			// min written as a comparison: some other value is returned on a path that compared it with a parameter whose
+			// argument is the accepted bound (the value returned is then at most that bound, whichever way the test went)
+			okCmp := false
+			if len(r.Results) == 1 {
+				rv := stripConv(r.Results[0])
+				for _, f := range factsAt(r.Ret) {
+					b, isB := f.Cond.(*ssa.BinOp)
+					if !isB || (b.Op != token.LSS && b.Op != token.LEQ && b.Op != token.GTR && b.Op != token.GEQ) {
+						continue
+					}
+					var other ssa.Value
+					if stripConv(b.X) == rv {
+						other = stripConv(b.Y)
+					} else if stripConv(b.Y) == rv {
+						other = stripConv(b.X)
+					}
+					if prm, isP := other.(*ssa.Parameter); isP {
+						for k, gp := range g.Params {
+							if gp == prm && k < len(x.Call.Args) && c16BoundOK(x.Call.Args[k], want, depth+1) {
+								// the returned value must be the smaller one on this path
+								smaller := (b.Op == token.LSS || b.Op == token.LEQ) == (stripConv(b.X) == rv) == f.Pos
+								if smaller {
+									okCmp = true
+								}
+							}
+						}
+					}
+				}
+			}
+			if !okCmp {
 				return false
 			}
 		}
